@@ -312,10 +312,26 @@ func ruleMergeShape(c *Ctx) {
 		}
 		// M3 / M5 in mergeDocs
 		fn := mf.mergeDocs
+		b.mergeNamesLiteral(l, fn)
 		ml := b.findMemberLoop(fn)
 		if ml == nil || ml.nonNilBlk == nil {
 			l.add("R-MERGESHAPE", b.Name, "anchor member loop of mergeDocs", b.rel(fn.Pos()), Undecided, "range over the patch members with a nil test on the member not found", false)
 			continue
+		}
+		{
+			// (M9) the walk is the whole function: it ends when the members of the patch are used
+			// up and in no other way — a shortcut that returns before the loop (taking the patch's
+			// members over wholesale, say) decides member by member nothing at all
+			key := "(M9) mergeDocs: every return lies behind the walk over the patch's members"
+			bad := ""
+			for _, r := range liveReturns(fn) {
+				if !ml.header.Dominates(r.Block()) {
+					bad = "the return at " + b.posOf(r) + " is reached without entering the loop over the patch's members: the members are not merged one by one on that path (objects on both sides are replaced instead of merged, deletions are taken over or lost as a block)"
+				} else if ml.body[r.Block()] {
+					bad = "the return at " + b.posOf(r) + " leaves the loop over the patch's members before they are used up"
+				}
+			}
+			add(key, b.rel(fn.Pos()), bad == "", "the function returns only where the range over the patch's members is exhausted", bad)
 		}
 		flag := boolParam(fn)
 		{
@@ -432,6 +448,42 @@ func ruleMergeShape(c *Ctx) {
 			}
 			if bad == "" && (!keep || !rem) {
 				bad = fmt.Sprintf("null member handling incomplete (keeps in combine mode: %v, removes in apply mode: %v)", keep, rem)
+			}
+			// … and on every path: a null member whose removal (or nil store) is skipped under
+			// some further condition — the target's current value, say — leaves a member of the
+			// target standing that the patch deletes
+			if bad == "" && ml.nilBlk != nil {
+				actBlks := map[*ssa.BasicBlock]bool{}
+				for bb := range ml.body {
+					for _, ins := range bb.Instrs {
+						if _, ok := memberSetter(ins, ml.key); ok {
+							actBlks[bb] = true
+						}
+						if memberRemover(ins, ml.key) {
+							actBlks[bb] = true
+						}
+					}
+				}
+				seen := map[*ssa.BasicBlock]bool{}
+				var walk func(bb *ssa.BasicBlock) bool
+				walk = func(bb *ssa.BasicBlock) bool {
+					if bb == ml.header {
+						return true
+					}
+					if seen[bb] || !ml.body[bb] || actBlks[bb] {
+						return false
+					}
+					seen[bb] = true
+					for _, sx := range bb.Succs {
+						if walk(sx) {
+							return true
+						}
+					}
+					return false
+				}
+				if walk(ml.nilBlk) {
+					bad = "some path through the loop body for a null member reaches the next iteration without storing nil or removing the key: the deletion the patch asks for is skipped under a further condition"
+				}
 			}
 			add(key, b.posOf(ml.testBlk.Instrs[len(ml.testBlk.Instrs)-1]), bad == "", "combine mode stores nil under the key; apply mode removes the key", bad)
 		}
@@ -631,6 +683,57 @@ func ruleNoPrune(c *Ctx) {
 			continue
 		}
 		b.pruneWalk(l, mf)
+		// who may prune: the functions that drop null members are the merge walk's. Any other
+		// caller — CreateMergePatch "normalising" its original, say — treats a null member as
+		// an absent one where the two are different documents
+		{
+			family := map[*ssa.Function]bool{mf.pruneNulls: true}
+			for changed := true; changed; {
+				changed = false
+				for f := range family {
+					allInstrs(f, func(i ssa.Instruction) {
+						if ci, ok := i.(ssa.CallInstruction); ok {
+							if g := ci.Common().StaticCallee(); g != nil && g.Pkg == b.Lib && !family[g] && len(g.Params) > 0 {
+								pt := g.Params[0].Type()
+								if isPtrToNamed(pt, "partialDoc") || isPtrToNamed(pt, "partialArray") || isPtrToNamed(pt, "lazyNode") {
+									if g != mf.merge && g != mf.mergeDocs && g.Signature.Recv() == nil {
+										family[g] = true
+										changed = true
+									}
+								}
+							}
+						}
+					})
+				}
+			}
+			allowed := map[*ssa.Function]bool{mf.mergeDocs: true}
+			if mf.merge != nil {
+				allowed[mf.merge] = true
+			}
+			if dm := b.roleFn("doMergePatch"); dm != nil {
+				allowed[dm] = true
+			}
+			key := "the functions that drop null members are called from the merge walk only"
+			bad := ""
+			for _, fn := range b.srcFuncs(b.Lib) {
+				if family[fn] || allowed[fn] {
+					continue
+				}
+				for _, cs := range callsTo(fn, func(cc *ssa.CallCommon) bool { return family[cc.StaticCallee()] }) {
+					bad = fname(fn) + " calls " + calleeLabel(cs.Common()) + " at " + b.posOf(cs) + ": outside the application of a merge patch a null member is a member, and dropping it changes the document that is compared or returned"
+				}
+			}
+			if bad != "" {
+				l.add("R-NOPRUNE", b.Name, key, "", Violated, bad, true)
+			} else {
+				var names []string
+				for f := range family {
+					names = append(names, fname(f))
+				}
+				sort.Strings(names)
+				l.add("R-NOPRUNE", b.Name, key, "", Discharged, "prune family "+strings.Join(names, ", ")+": callers are the family itself, merge, mergeDocs and doMergePatch", true)
+			}
+		}
 		fn := mf.mergeDocs
 		flag := boolParam(fn)
 		ml := b.findMemberLoop(fn)
